@@ -505,7 +505,7 @@ fn replace_blob(bytes: &[u8], lenf: &Field, content: &[u8]) -> Vec<u8> {
 }
 
 /// number of coordinated edit kinds
-pub const COORDINATED_KINDS: usize = 11;
+pub const COORDINATED_KINDS: usize = 12;
 /// index of "FRI remainder of another length" among the coordinated kinds (the `_` arm below)
 pub const REMAINDER_KIND: usize = 7;
 
@@ -679,6 +679,30 @@ pub fn coordinated_fault(bytes: &[u8], lay: &Layout, kind: usize, variant: usize
             let junk: Vec<u8> = (0..dsz).map(|i| 0xA5u8 ^ (i as u8).wrapping_mul(29) ^ variant as u8).collect();
             out.splice(at..at, junk);
             Some((format!("coordinated: a surplus digest appended to {} (now {} digests)", f.name.trim_end_matches(".num_digests"), nd + 1), out))
+        },
+        11 => {
+            // the counterpart of kind 10: the last digest dropped from a node vector of a batch
+            // Merkle opening, or the vector emptied, with the vector's count and every enclosing
+            // length prefix adjusted (a single-query opening then carries a path without nodes)
+            let vecs: Vec<&Field> = lay.fields.iter().filter(|f| f.name.ends_with(".num_digests") && get(bytes, f.off, 1) > 0).collect();
+            if vecs.is_empty() {
+                return None;
+            }
+            let dsz = fields_with_prefix(lay, "commitments.digest[").first()?.len;
+            let v8 = variant % 8;
+            let k = if v8 == 7 { vecs.len() - 1 } else { v8 * vecs.len() / 7 };
+            let f = vecs[k.min(vecs.len() - 1)];
+            let nd = get(bytes, f.off, 1) as usize;
+            let drop = if variant % 16 < 8 { 1 } else { nd };
+            let mut out = bytes.to_vec();
+            put(&mut out, f.off, 1, (nd - drop) as u64);
+            for (o, w) in &f.enclosing {
+                let v = get(&out, *o, *w).wrapping_sub((drop * dsz) as u64);
+                put(&mut out, *o, *w, v);
+            }
+            let at = f.off + 1 + (nd - drop) * dsz;
+            out.drain(at..at + drop * dsz);
+            Some((format!("coordinated: {} dropped from {} (now {} digests)", if drop == nd { "every digest" } else { "the last digest" }, f.name.trim_end_matches(".num_digests"), nd - drop), out))
         },
         9 => {
             // the proof-of-work nonce moved by a multiple of the base field's modulus M (read from
